@@ -144,3 +144,87 @@ pub fn run(req: &mut J) -> Result<J, String> {
     }
     Ok(json!({"py": py, "rust": rust_obs}))
 }
+
+
+const CFG_SCRIPT: &str = r#"
+import json
+
+def exc(e):
+    return {"exc": type(e).__name__, "msg": str(e)}
+
+def fields(cfg):
+    return {"nodes_path": cfg.nodes_path, "classes_path": cfg.classes_path, "ignore": cfg.ignore_class_notfound,
+            "compose": cfg.compose_node_name, "patterns": list(cfg.ignore_class_notfound_regexp),
+            "literal_dots": len(cfg.compatflags) > 0}
+
+out = {}
+opts = json.loads(options_json)
+try:
+    out["dict"] = {"ok": fields(Config.from_dict(root, opts))}
+except BaseException as e:
+    out["dict"] = exc(e)
+try:
+    r = Reclass.from_config_file(root, "reclass-config.yml")
+    out["file"] = {"ok": fields(r.config)}
+except BaseException as e:
+    out["file"] = exc(e)
+try:
+    r = Reclass(inventory_path=root, nodes_path=ctor.get("nodes"), classes_path=ctor.get("classes"), ignore_class_notfound=ctor.get("ignore"))
+    out["ctor"] = {"ok": fields(r.config)}
+except BaseException as e:
+    out["ctor"] = exc(e)
+result = json.dumps(out)
+"#;
+
+/// op `py_config`: the same options through `Config.from_dict`, `Reclass.from_config_file`
+/// and the constructor, all from Python.
+pub fn run_config(req: &mut J) -> Result<J, String> {
+    let scratch = scratch_dir();
+    let root = scratch.0.join("inv");
+    std::fs::create_dir_all(root.join("nodes")).map_err(|e| e.to_string())?;
+    std::fs::create_dir_all(root.join("classes")).map_err(|e| e.to_string())?;
+    let opts = req.get("py_options").cloned().unwrap_or(json!({}));
+    // directories named by the options must exist for the file route to construct an instance
+    for k in ["nodes_uri", "classes_uri"] {
+        if let Some(p) = opts.get(k).and_then(J::as_str) {
+            if !p.starts_with('/') && !p.contains("..") {
+                let _ = std::fs::create_dir_all(root.join(p));
+            }
+        }
+    }
+    let ctor = req.get("ctor").cloned().unwrap_or(json!({}));
+    for k in ["nodes", "classes"] {
+        if let Some(p) = ctor.get(k).and_then(J::as_str) {
+            if !p.starts_with('/') && !p.contains("..") {
+                let _ = std::fs::create_dir_all(root.join(p));
+            }
+        }
+    }
+    // the file route reads YAML: JSON is YAML
+    std::fs::write(root.join("reclass-config.yml"), serde_json::to_string(&opts).unwrap()).map_err(|e| e.to_string())?;
+    let rootstr = root.to_str().unwrap().to_string();
+    let res: Result<String, String> = Python::with_gil(|py| {
+        let locals = PyDict::new(py);
+        locals.set_item("Reclass", py.get_type::<Reclass>()).map_err(|e| e.to_string())?;
+        locals.set_item("Config", py.get_type::<Config>()).map_err(|e| e.to_string())?;
+        locals.set_item("root", &rootstr).map_err(|e| e.to_string())?;
+        locals.set_item("options_json", opts.to_string()).map_err(|e| e.to_string())?;
+        let c = PyDict::new(py);
+        for k in ["nodes", "classes"] {
+            match ctor.get(k).and_then(J::as_str) {
+                Some(v) => c.set_item(k, v).map_err(|e| e.to_string())?,
+                None => c.set_item(k, py.None()).map_err(|e| e.to_string())?,
+            }
+        }
+        match ctor.get("ignore").and_then(J::as_bool) {
+            Some(v) => c.set_item("ignore", v).map_err(|e| e.to_string())?,
+            None => c.set_item("ignore", py.None()).map_err(|e| e.to_string())?,
+        }
+        locals.set_item("ctor", c).map_err(|e| e.to_string())?;
+        py.run(&CString::new(CFG_SCRIPT).unwrap(), Some(&locals), Some(&locals)).map_err(|e| format!("python harness script failed: {e}"))?;
+        let r = locals.get_item("result").map_err(|e| e.to_string())?.ok_or("no result")?;
+        r.extract::<String>().map_err(|e| e.to_string())
+    });
+    let text = res?.replace(scratch.0.to_str().unwrap(), "<ROOT>");
+    serde_json::from_str(&text).map_err(|e| e.to_string())
+}
